@@ -19,6 +19,7 @@ BatchOps ==
       O("chunk2_0", "select", <<0, 1>>), O("chunk2_1", "select", <<2>>),
       O("split2_0", "select", <<0, 1>>), O("split2_1", "select", <<2>>), O("split2_kwdim_1", "select", <<2>>),
       O("split_sizes_12_1", "select", <<1, 2>>), O("split_sizes_12_0", "select", <<0>>),
+      O("split_sizes_111_2", "select", <<2>>), O("split_sizes_111_1", "select", <<1>>), O("split_with_sizes_111_2", "select", <<2>>),
       O("tensor_split2_0", "select", <<0, 1>>), O("tensor_split2_1", "select", <<2>>), O("tensor_split_idx1_1", "select", <<1, 2>>),
       O("repeat_interleave_0", "select", <<0, 0, 1, 1, 2, 2>>),
       O("int_1", "item", <<1>>), O("int_neg1", "item", <<2>>), O("select_0_2", "item", <<2>>), O("unbind_1", "item", <<1>>), O("iter_0", "item", <<0>>),
